@@ -231,7 +231,13 @@ func (x *Exec) step(st *State, fn *ssa.Function, ins ssa.Instruction, top bool) 
 	case *ssa.Store:
 		a := x.get(st, ins.Addr)
 		x.nilCheck(st, ins, a)
-		st.storeAt(x.addrOf(st, a, ins), x.get(st, ins.Val))
+		val := x.get(st, ins.Val)
+		if len(x.eng.cs.NonNil) > 0 && val.K < VSlice && val.K >= VRef && x.eng.cs.NonNil[fullTypeName(ins.Val.Type())] {
+			if _, isAlloc := ins.Addr.(*ssa.Alloc); !isAlloc {
+				x.panicObl(st, ins, "nonnil", "(not (= "+val.T+" 0))", "nil stored into a location of a type declared non-nil")
+			}
+		}
+		st.storeAt(x.addrOf(st, a, ins), val)
 	case *ssa.UnOp:
 		xv := x.get(st, ins.X)
 		switch ins.Op {
